@@ -21,7 +21,8 @@ LEVEL = ('decides the mechanisms the statement names: the core guard has a Drop 
          'call, inert posting in inconsistent states, entry guards, stored-solution extent). Also runs'
          ' the KERNEL BUNDLE (AK<n>): predicate algebra, implicit reasons, watchers, minimisers, '
          'conflict-analysis tables, constraint builders and explanation rules registered under other '
-         'properties. Does not decide that a core is logically a core')
+         'properties. Every core is the result of analysing the current conflict (A18 MUST-PASS). Does'
+         ' not decide that a core is logically a core')
 TECHNIQUE = "static analysis: dominance / who-may-call / taint / typestate over rustc MIR"
 
 GUARD = "UnsatisfiableUnderAssumptions"
